@@ -62,7 +62,7 @@ def _interval_new(ctx) -> None:
             ctx.unverified("FLOW.delta", "Interval.__new__/delta", f"`{s[:80]}`", m.loc(ex[2]))
             continue
         d = v.func.value
-        swapped = p.holds("absolute") is True and p.holds("start > end") is True
+        swapped = p.holds("absolute") is True and (p.holds("start > end") is True or p.holds("_is_after(start, end)") is True)
         S, E = ("end", "start") if swapped else ("start", "end")
         left, right = nun(d.left), nun(d.right)
         key = (left, right, swapped)
@@ -79,10 +79,10 @@ def _interval_new(ctx) -> None:
     body = core.body_no_doc(fn)
     swap_i = copy_i = None
     for i, st in enumerate(body):
-        if isinstance(st, ast.If) and "start > end" in un(st.test) and "absolute" in un(st.test):
+        if isinstance(st, ast.If) and ("start > end" in un(st.test) or "_is_after(start, end)" in un(st.test)) and "absolute" in un(st.test):
             swap_i = i
             ok = [nun(s) for s in st.body] in (["end, start = (start, end)"], ["start, end = (end, start)"])
-            ctx.ob("FLOW.swap", "Interval.__new__/absolute-swap", ok and nun(st.test) == "absolute and start > end",
+            ctx.ob("FLOW.swap", "Interval.__new__/absolute-swap", ok and nun(st.test) in ("absolute and start > end", "absolute and _is_after(start, end)"),
                    f"`if {un(st.test)}: {[nun(s) for s in st.body]}`; absolute intervals swap the endpoints iff start > end",
                    m.loc(st))
         if copy_i is None and isinstance(st, ast.Assign) and nun(st.targets[0]) in ("_start", "_end"):
@@ -110,6 +110,31 @@ def _interval_new(ctx) -> None:
                     ctx.ob("FLOW.guard", f"Interval.__new__/{which}-aware-guard", ok,
                            f"correction of {which} guarded by `{un(inner.test)}` ({at}); must require {which}.tzinfo is not None",
                            m.loc(inner))
+
+
+def _instant_order(ctx) -> None:
+    """Ordering decisions between the two endpoints must not use the bare native comparison: for two aware
+    datetimes sharing one tzinfo it compares wall clock fields and ignores fold."""
+    m = pmod("interval")
+    for q in ("Interval.__new__", "Interval.__init__"):
+        fn = m.func(q)
+        a, b = core.params(fn)[:2]
+        bare = [n for n in core.walk_fn(fn) if isinstance(n, ast.Compare) and len(n.ops) == 1
+                and isinstance(n.ops[0], (ast.Gt, ast.Lt, ast.GtE, ast.LtE)) and {nun(n.left), nun(n.comparators[0])} == {a, b}]
+        ctx.ob("ORDER.instant", f"{q}/endpoint-order", not bare,
+               f"{[nun(x) for x in bare]}: a native comparison of the endpoints ignores fold when both share one tzinfo, so inside a "
+               f"repeated hour the later instant can compare as earlier (negative absolute length, wrong invert flag)", m.loc(bare[0]) if bare else m.loc(fn))
+    if m.has_func("_is_after"):
+        fn = m.func("_is_after")
+        a, b = core.params(fn, drop_self=False)[:2]
+        ok = False
+        for p in cfg.paths(fn):
+            if p.holds(f"{a}.tzinfo is {b}.tzinfo") is True:
+                ex = p.exit()
+                v = nun(ex[2].value) if ex[1] == "return" else ""
+                ok = v in (f"{a}.astimezone(timezone.utc) > {b}.astimezone(timezone.utc)",
+                           f"{a} - {a}.utcoffset() > {b} - {b}.utcoffset()")
+        ctx.ob("ORDER.instant", "_is_after/same-tzinfo", ok, "aware endpoints sharing one tzinfo must be compared after conversion to UTC", m.loc(fn))
 
 
 def _direction(ctx) -> None:
@@ -221,6 +246,7 @@ def _totals(ctx) -> None:
 def run(ctx) -> None:
     ctx.explanation = EXPLANATION
     _direction(ctx)
+    _instant_order(ctx)
     _interval_new(ctx)
     _totals(ctx)
     ivm, dm = pmod("interval"), pmod("datetime")
